@@ -199,7 +199,26 @@ class World:
         # ---- EQ-REF -----------------------------------------------------------
         if check_ref and not self.diverged:
             self._eq_ref(res)
+        if res.real[0] == 'exc':
+            # The rollback monitors above compare before/after directly.  For
+            # everything that follows, the reference state adopts the tree the
+            # rollback actually left (latitude b: recorded directories may
+            # reappear), so later oracles are not polluted by it.
+            self._adopt_real_tree(res.after)
         return res
+
+    def _adopt_real_tree(self, snapshot):
+        t = {}
+        for r, v in snapshot.items():
+            p = self.sb.p(r)
+            if v[0] == 'd':
+                t[p] = ('d',)
+            elif r == self.cache_rel:
+                t[p] = ('f', b'<cache>')
+            else:
+                t[p] = ('f', v[1])
+        self.ref.fs.t = t
+        self.ref.sync()
 
     def _eq_ref(self, res):
         V = res.violations
